@@ -61,6 +61,11 @@ def write_forms():
         "while-body": ("while (i < 1) { i++; %s } return k;", "while (i < 1) { i++; } return k;"),
         "while-cond": ("while ((v = 0) > 0) { i++; } return k;", "while (k < 0) { i++; } return k;"),
         "do-while": ("do { i++; %s } while (i < 1); return k;", "do { i++; } while (i < 1); return k;"),
+        "do-while-cond": ("do { i++; } while ((v = 0) > 0); return k;", "do { i++; } while (k < 0); return k;"),
+        "for-init-expression": ("for (i = (v = 0); i < 2; i++) { } return k;", "for (i = k - k; i < 2; i++) { } return k;"),
+        "if-condition": ("if ((v = 1) > 0) { i++; } return k;", "if (k > 0) { i++; } return k;"),
+        "return-in-branch": ("if (k > 5) { return (v = 1); } return k;", "if (k > 5) { return k; } return k;"),
+        "after-returning-loop": ("while (i < 0) { i++; return k; } v = 1; return k;", "while (i < 0) { i++; return k; } i = 1; return k;"),
         "iteration": ("for (j : int[0,1]) { %s } return k;", "for (j : int[0,1]) { t = t + j; } return t;"),
         "nested-block": ("{ { { %s } } } return k;", "{ { { t = k; } } } return t;"),
         "return-expr": ("return (v = 1);", "return k;"),
